@@ -158,8 +158,12 @@ __CPROVER_ensures(other == NULL || (0 <= R && R <= self->len))
 #ifdef U_EMPTY
 __CPROVER_ensures(other == NULL || R == 0)
 #else
+#ifdef U_OTHER_EMPTY
+__CPROVER_ensures(R == 0)                         /* a needle without text is the empty needle: found at 0 */
+#else
 __CPROVER_ensures(other == NULL || other->s[0] != 0 || R == 0)
 __CPROVER_ensures(other == NULL || other->s[0] == 0 || R == self->len || self->s[R] == other->s[0])
+#endif
 #endif
 ;
 void harness(void)
